@@ -318,8 +318,8 @@ REGISTRY = {
         "quick": ["c12_"],
         "thorough": ["c12t_"],
         "cbmc_args": ["--max-field-sensitivity-array-size", "256"],
-        "min_quick": 18,
-        "min_thorough": 21,
+        "min_quick": 17,
+        "min_thorough": 20,
         "timeout_quick": 900,
         "timeout_thorough": 1800,
         "functions": [
